@@ -31,8 +31,10 @@ CLAIMED = {
               "for every command sequence the specification gives a meaning to, Spec.interp of the output equals Spec.interp of "
               "the input; the walker's current point / subpath start equal the interpreter's after every command for all twenty "
               "letters (nextPos_is_current_point), and any callback that is sound command by command inherits the result "
-              "(sound_callback_preserves_curve). For arcs_to_cubics and the shapes the semantic half is "
-              "carried by the Spec-judged search."),
+              "(sound_callback_preserves_curve). The command sequences as_path() builds for line, ellipse/circle and rect "
+              "(generic builders ShapeCmds.*, which the model prints) are proved to draw the outlines SVG 1.1 section 9 "
+              "prescribes (line_as_path, ellipse_as_path, rect_as_path: corner arcs exactly when the resolved radius is "
+              "positive). For arcs_to_cubics and polygon/polyline the semantic half is carried by the Spec-judged search."),
         note=("Trusted: Lean kernel; propext/Classical.choice/Quot.sound; Spec/PathInterp.lean, Spec/Shapes.lean; translator; "
               "harness; F64 ntos/round bridge. Three repaired defects (41546f5, 169f23a, b4525fa), see known_findings.json."),
         technique="Lean 4 proof (induction over the walk; simulation of the walk by the path interpreter) + d-string correspondence + Spec.interp-judged search",
